@@ -422,7 +422,83 @@ fn record_prefix(prefix: &Case) -> Option<usize> {
     record(prefix).ok().map(|(rec, _)| rec.regions.iter().filter(|r| r.name != "pow2range table").count())
 }
 
+/// Targeted forgery against `div_rem` without a declared dividend bound. The operation is the
+/// composition `r = assign_lower_than_fixed(d); q = assign_lower_than_fixed((p-1)/d + 1);
+/// assert dividend = d*q + r`; the replica program below issues exactly these public calls with
+/// prover-chosen `(q, r)` (the harness first checks that the replica's constraint system is
+/// cell-for-cell identical to the one `div_rem` builds). With `p - 1 = d*Q + R`, the pair
+/// `(Q, x + R + 1)` satisfies every constraint for every dividend `x < d - R - 1` although
+/// `x / d = 0`: the sum wraps around the modulus.
+pub fn attack_divrem(ctx: &mut Ctx) {
+    use crate::prog::{op, Arg::*, Params};
+    use num_bigint::BigUint;
+    let pm = gen::modulus();
+    let params = Params { nr_cols: 4, max_bit_len: 8 };
+    let mut accepted = vec![];
+    for d in [3u64, 5, 7, 10, 255, 65537] {
+        let dv = BigUint::from(d);
+        let q_cap = (&pm - 1u8) / &dv; // Q
+        let rr = (&pm - 1u8) % &dv; // R
+        if &rr + 2u8 > dv {
+            ctx.count("attack:divrem:not-applicable");
+            continue; // no dividend x with x + R + 1 < d
+        }
+        let x = BigUint::from(0u8);
+        let real = Case {
+            kind: "divrem-nobound".into(),
+            params: params.clone(),
+            ops: vec![op("in", vec![]), op("divrem", vec![V(0), Big(dv.clone()), OptBig(None)])],
+            inputs: vec![gen::big_fe(&x)],
+            first_op: 1,
+            deterministic: true,
+        };
+        let replica = |xv: &BigUint, rv: &BigUint, qv: &BigUint| Case {
+            kind: "divrem-replica".into(),
+            params: params.clone(),
+            ops: vec![
+                op("in", vec![]),
+                op("inlf", vec![Big(dv.clone())]),
+                op("inlf", vec![Big(&q_cap + 1u8)]),
+                op("lc", vec![Terms(vec![(gen::big_fe(&dv), 2), (F::from(1u64), 1)]), C(F::from(0u64))]),
+                op("aeq", vec![V(0), V(3)]),
+            ],
+            inputs: vec![gen::big_fe(xv), gen::big_fe(rv), gen::big_fe(qv)],
+            first_op: 1,
+            deterministic: false,
+        };
+        let honest_rep = replica(&x, &(&x % &dv), &(&x / &dv));
+        let (Ok((rec_real, _)), Ok((rec_rep, _))) = (record(&real), record(&honest_rep)) else {
+            ctx.count("attack:divrem:record-failed");
+            continue;
+        };
+        if rec_real.render() != rec_rep.render() {
+            // the replica no longer reproduces div_rem's constraint system: nothing is claimed
+            ctx.count("attack:divrem:replica-differs");
+            continue;
+        }
+        ctx.count("attack:divrem:replica-identical");
+        let forged = replica(&x, &(&x + &rr + 1u8), &q_cap);
+        let m = mock(&forged, k_for(&rec_rep), vec![]);
+        ctx.count(&format!("attack:divrem:{:?}", m.verdict));
+        if m.verdict == Ok(true) {
+            accepted.push(json!({"divisor": d, "dividend": "0x0", "forged_quotient": mzkh::big_hex(&q_cap),
+                       "forged_remainder": mzkh::big_hex(&(&x + &rr + 1u8)),
+                       "true_quotient": "0x0", "true_remainder": "0x0",
+                       "program": case_key(&forged)}));
+        }
+    }
+    if !accepted.is_empty() {
+        ctx.oracle_fail(
+            "div_rem:no-dividend-bound:wraparound",
+            "div_rem without a dividend bound accepts a forged (quotient, remainder): d*q + r wraps around the modulus",
+            json!({"where": "circuits/src/instructions/division.rs: div_rem (q_strict_bound = dividend_bound/divisor + 1 with dividend_bound = p-1 allows d*q + r >= p)",
+                   "accepted_forgeries": accepted}),
+        );
+    }
+}
+
 pub fn run(ctx: &mut Ctx) {
+    attack_divrem(ctx);
     let cases = gen::cases(ctx);
     let budget = if ctx.quick() { 6 } else if ctx.thorough() { 40 } else { 200 };
     for case in &cases {
